@@ -19,6 +19,11 @@ import (
 
 const modulePrefix = "github.com/pgavlin/dawn"
 
+// stdInit: dependency packages whose initialisers were found to run cleanly under the engine; every
+// unit runs them (plus every package of the dawn module). Reads of variables set by any other
+// package's initialiser abort the path as unsupported (see guardGlobal).
+var stdInit = []string{"errors", "internal/oserror", "io", "io/fs", "bytes", "math/big", "go.starlark.net/starlark", "go.starlark.net/resolve"}
+
 // Intrinsics are declared without bodies in the overlay; the engine interprets them.
 const intrinsicDecls = `
 func vNondetU8(tag string) uint8
@@ -195,7 +200,7 @@ func workerMain() {
 			known[k] = true
 		}
 		res := m.RunCase(j.Fn, s, interp.Options{
-			AllowInit: spec.Init, Params: j.Params, KnownRegions: known,
+			AllowInit: append(append([]string{}, stdInit...), spec.Init...), Params: j.Params, KnownRegions: known,
 			StepLimit: spec.StepLimit, MaxDecisions: spec.Decisions, MaxCallDepth: spec.CallDepth,
 			SolverTimeMS: spec.TimeoutMS, ModulePrefix: modulePrefix,
 		})
